@@ -52,6 +52,53 @@ KINDS = ['plain', 'itemize', 'rich', 'big', 'mfj', 'deps', 'hsa', 'nc_full', 'nc
 # ------------------------------------------------------------------------------------------------------------------
 # scenarios
 # ------------------------------------------------------------------------------------------------------------------
+_static_cache = {}
+
+
+def code_can_read(year, form_cls, line, operand_full):
+    """does the translated program of `form_cls.line` mention, on ANY path, a key that can denote `operand_full`?  (the
+    read-set patterns of tools/gen_c10.py, i.e. of Dsl/Refs.lean.)  If it cannot, a missing operand is not a branch
+    that was not taken but a term the code never uses."""
+    import re as _re
+    tools = os.path.dirname(os.path.dirname(os.path.abspath(__file__)))
+    if tools not in sys.path:
+        sys.path.insert(0, tools)
+    import c09_gates
+    import gen_c10
+    key = (year, form_cls, line)
+    if key not in _static_cache:
+        pats = None
+        try:
+            ir = c09_gates.year_ir(year)
+            for c in ir['classes']:
+                if c['name'] == form_cls:
+                    for l in c['lines']:
+                        if l['name'] == line:
+                            pats = gen_c10.refs_of_line(l)[0]
+        except Exception:  # noqa: BLE001
+            pats = None
+        _static_cache[key] = pats
+    pats = _static_cache[key]
+    if pats is None:
+        return True                       # unknown: assume it can
+    oform, oline = operand_full.rsplit('.', 1)
+    cands = {operand_full} | ({oline} if oform.split(':')[0] == form_cls else set())
+    for pat in pats:
+        rx = ''
+        for p in pat:
+            if p[0] == 'lit':
+                rx += _re.escape(p[1])
+            elif p[0] == 'nat':
+                rx += r'\d+'
+            elif p[0] == 'oneOf':
+                rx += '(?:' + '|'.join(_re.escape(x) for x in p[1]) + ')'
+            else:
+                rx += '.*'
+        if any(_re.fullmatch(rx, c) for c in cands):
+            return True
+    return False
+
+
 def mk_scenario(seed, year, kind, index):
     """(policy, forms, schedules_on) for one scenario; all randomness from the seed string.  `schedules_on`: forms that the
     scenario's answers make part of the return (their guard inputs are answered yes), so that their total lines may be
@@ -69,6 +116,14 @@ def mk_scenario(seed, year, kind, index):
             pol.fixed['1040.filing_status'] = status
         if kind == 'itemize':
             pol.fixed['1040_sa.itemize_though_less'] = rng.choice(['yes', 'no'])
+            if year == 2021:
+                # 2021 only: mortgage insurance premiums (Form 1098 box 5, Schedule A line 8d), deductible in full up to an
+                # income of 100,000 (50,000 married filing separately)
+                pol.fixed.update({'box_5': rng.choice(['0', '1850.00', '640.25']), 'mortgage_insurance_premiums_special': 'no'})
+                if index % 2 == 0:
+                    pol.fixed.update({'1040.number_w-2': '1', 'w-2:0.box_1': rng.choice(['38000', '47900.50']),
+                                      '1040.number_1099-int': '0', '1040.number_1099-div': '0', '1040.number_1099-r': '0',
+                                      '1040.number_1099-g': '0'})
         if rng.random() < 0.3:
             forms.append('nc_d-400')
             pol.fixed.setdefault('1040.number_1098', str(rng.choice([1, 2])))
@@ -86,9 +141,8 @@ def mk_scenario(seed, year, kind, index):
         if status in ('QualifyingWidowWidower', 'QualifyingSurvivingSpouse'):
             fixed['1040.filing_status'] = rng.choice(['Single', 'MarriedFilingJointly', 'HeadOfHousehold'])
         fixed.update({'1040.number_1098': str(rng.choice([1, 2])), 'additions_to_agi': 'yes', 'deductions_from_agi': 'yes',
-                      # 2022: Schedule S lines 23e / 24e read inputs no form declares -> the real solver recurses for ever
-                      'bonus_depreciation': rng.choice(['yes', 'no']) if year != 2022 else 'no',
-                      'section_179_expense': rng.choice(['yes', 'no']) if year != 2022 else 'no',
+                      'bonus_depreciation': rng.choice(['yes', 'no']),
+                      'section_179_expense': rng.choice(['yes', 'no']),
                       'try_itemizing': 'yes' if kind != 'nc_full' or rng.random() < 0.5 else 'no',
                       'no_consumer_use_tax': rng.choice(['yes', 'no']), 'full_records': rng.choice(['yes', 'no']),
                       'county_tax_pct': rng.choice(['0.0675', '0.07', '0.0475']),
@@ -552,6 +606,12 @@ def run(seed, tier, runs=None):
                 pending = check_solution(T, year, kind, idx, forms, res, sol)
                 loaded = set(getattr(res['solver'], 'forms', {}) or {})
                 pending = {k: ns for k, ns in pending.items() if all(n.split('.')[0] in loaded for n in ns)}
+                # an operand the code reads on SOME path is absent because that path was not taken (the form's own skip
+                # logic): forcing it would evaluate a line the form says to skip.  Only operands the code can never read
+                # are forced - then the instruction and the code differ whatever the branch
+                pending = {k: [n for n in ns if not code_can_read(year, k.rsplit('.', 1)[0].split(':')[0], k.rsplit('.', 1)[1], n)]
+                           for k, ns in pending.items()}
+                pending = {k: ns for k, ns in pending.items() if ns}
                 if pending:
                     # an operand of an instruction is a line the solution does not contain (the code of the line never
                     # asked for it) although its form is loaded: solve again on the SAME inputs, additionally requesting
@@ -565,11 +625,23 @@ def run(seed, tier, runs=None):
                     values2 = dict(res2['solver']._v.values)
                     # only when the extra lines needed NO further input (the extended solution is a function of the very
                     # same inputs) and the lines of the first solution keep their values
-                    if inputs_of(res2) == inputs_of(res) and \
-                            all(values2.get(k) == v for k, v in values.items() if k in values2):
+                    # (enumeration members are compared by their text: some enumerations are created per form instantiation)
+                    undisturbed = all(values2.get(k) == v or repr(values2.get(k)) == repr(v) for k, v in values.items() if k in values2)
+                    if inputs_of(res2) == inputs_of(res) and undisturbed:
                         scen['second_pass_used'] = scen.get('second_pass_used', 0) + 1
                         sol2 = Sol(year, values2, forms_tbl[year], sol.status)
                         check_solution(T, year, kind, idx, forms, res2, sol2, only=set(pending), forced=set(want))
+                    elif res2['exception'] is None and undisturbed:
+                        # the forced lines asked for further inputs (boxes only they read).  The extended run is a real
+                        # solution in its own right; it is used for the lines whose missing operands all belong to the
+                        # line's OWN form (a sum that silently dropped a term of its form) - an operand on another form
+                        # may belong to a schedule that is not part of the return, where its value is meaningless
+                        same_form = {k for k, ns in pending.items() if all(n.rsplit('.', 1)[0] == k.rsplit('.', 1)[0] for n in ns)}
+                        if same_form:
+                            scen['second_pass_used_new_inputs'] = scen.get('second_pass_used_new_inputs', 0) + 1
+                            sol2 = Sol(year, values2, forms_tbl[year], sol.status)
+                            check_solution(T, year, kind, idx, forms, res2, sol2, only=same_form,
+                                           forced={n for k in same_form for n in pending[k]})
     by_form = T.by_form
     coverage = {}
     for (year, form), lines in sorted(T.produced.items()):
